@@ -36,6 +36,7 @@ RULE += " Round 8: top-level string keys that look like numbers without being st
 RULE += ' Round 9: tables of 1100-2100 rows in which one field is given only in the last ten rows.'
 RULE += ' Round 10: tables written under .CSV / .TSV / .txt / no extension; cells containing line feeds and empty lines.'
 RULE += ' Round 11: NumPy scalars as parameter values.'
+RULE += ' Round 13: backslashes in cells; the target folder removed between two saves.'
 EXHAUSTIVE = {'quick': True, 'thorough': True}
 EXHAUSTIVE_SCOPE = {'quick': 'array matrix (dtype x rank x layout x length) exhaustive; dictionaries, '
                              'tables and params sampled', 'thorough': 'same matrix; larger random part'}
